@@ -70,7 +70,7 @@ OUT_KINDS = ['p2pkh', 'p2sh', 'claim', 'update', 'support', 'support_data', 'pur
 
 REQUIRED_HITS = (
     ['B2.flow_object_vs_raw_checked', 'flow.exact', 'flow.dust_surplus', 'flow.change', 'B1.checked', 'B2.fields_checked', 'B2.reserialize_checked', 'B3.built_id_checked', 'B3.parsed_id_checked',
-     'B3.hash_checked', 'B4.checked', 'S.B2.fields_checked', 'S.B3.id_checked', 'S.B3.sans_segwit_checked', 'S.B2.raw_of_parsed_checked', 'M.raw_of_parsed_checked',
+     'B3.hash_checked', 'B4.checked', 'S.B2.fields_checked', 'S.B3.id_checked', 'S.B3.sans_segwit_checked', 'B5.child_outpoints_checked', 'S.B2.raw_of_parsed_checked', 'M.raw_of_parsed_checked',
      'M.fixture_checked', 'M.known_txid_checked', 'M.segwit_variant_checked', 'build.incremental', 'build.late_fields',
      'payload.claim_object', 'payload.support_object', 'payload.raw_bytes', 'witness.nonempty', 'witness.all_empty']
     + [f'in.{k}' for k in IN_KINDS] + [f'out.{k}' for k in OUT_KINDS] + ['out.tail.sh', 'out.tail.pkh']
@@ -687,6 +687,18 @@ def lib_build(built):
                 _ = tx.id
             elif touch == 2:
                 _ = (tx.size, tx.base_size)
+            if tx.outputs and r.random() < 0.5:
+                # what the wallet does with the outputs of a transaction under construction: reads their ids, wraps them in inputs,
+                # asks for estimators - each of which computes (and may cache) the id of the still unfinished transaction
+                o = tx.outputs[r.randrange(len(tx.outputs))]
+                t2 = r.randrange(3)
+                if t2 == 0:
+                    _ = o.id
+                elif t2 == 1 and o.script.is_pay_pubkey_hash:
+                    from lbry.wallet.transaction import Input
+                    _ = Input.spend(o)
+                else:
+                    _ = o.tx_ref.hash
     else:
         tx.add_inputs(ins).add_outputs(outs)
     if late:
@@ -952,6 +964,30 @@ def run_model(rec, spec, family, known_txid=None):
                 raise
             rec.violation(f'C05/{clause}/reserialize-raises/{site}', f're-serialising the parsed transaction raised {e!r}; {summary(spec)}',
                           {'raw': data, 'model': spec, 'error': repr(e)}, case=vcase)
+    # ---- B5: a second transaction spending every output of the finished one names it by the id of its FINAL bytes (added after seeded
+    # break C05-H: outputs added before a later change kept an orphaned, stale reference)
+    if raw == expected and nout <= 40:
+        from lbry.wallet.transaction import Input, Output
+        try:
+            spendable = [n for n, o in enumerate(tx.outputs) if o.script.is_pay_pubkey_hash]      # what Input.spend accepts
+            child = Transaction().add_inputs([Input.spend(tx.outputs[n]) for n in spendable]).add_outputs([Output.pay_pubkey_hash(1, bytes(20))])
+            cm = R.decode(child.raw) if spendable else None
+            got = [(i.prev_hash[::-1].hex(), i.prev_index) for i in cm.inputs] if spendable else None
+        except Exception as e:  # noqa: BLE001
+            site = lbry_site(e)
+            if site.endswith('@harness'):
+                raise
+            rec.violation(f'C05/B5/spending-the-outputs-raises/{site}', f'spending the outputs of a built transaction raised {e!r}; {summary(spec)}',
+                          {'model': spec, 'error': repr(e)}, case=vcase)
+            got = None
+        if got is not None:
+            rec.hit('B5.child_outpoints_checked')
+            want = [(exp_id, n) for n in spendable]
+            if got != want:
+                k = next(i for i in range(len(want)) if i >= len(got) or got[i] != want[i])
+                rec.violation('C05/B5/child-names-parent-by-a-stale-id', f'a transaction spending output {k} of the built transaction names outpoint '
+                              f'{got[k] if k < len(got) else None}, the parent\'s final bytes hash to {exp_id}; {summary(spec)}',
+                              {'model': spec, 'got': got[:5], 'parent_id': exp_id}, case=vcase)
     # ---- S: BIP144 encoding of the same model
     if segwit_raw is not None:
         check_segwit(rec, spec, model, expected, exp_id, exp_hash, segwit_raw, vcase, layout)
